@@ -538,6 +538,14 @@ impl Memfs {
                     // Add the new dst entry to the filesystem
                     self._add(guard, dst)?;
 
+                    // A file that was already there is overwritten: it takes the copy's mode as well
+                    // (copying an entry onto itself changes nothing)
+                    if !src.is_symlink() && dst_path != src.path() {
+                        if let Some(entry) = guard.get_entry_mut(&dst_path) {
+                            entry.set_mode(file_mode.or(Some(src.mode())));
+                        }
+                    }
+
                     // Copy the src file over as well
                     if !src.is_symlink() {
                         let dst_file = self._clone_file(guard, src.path())?;
